@@ -149,6 +149,20 @@ def run(beh, variant=0):
             text = ("subscription { ev { a } ev { b x } }" if variant % 8 == 3 else "subscription { ev { a } ...R }  fragment R on Subscription { ev { b x } }")
         if rkey != "ev":
             text = text.replace("{ ev {", "{ %s: ev {" % rkey).replace("} ev {", "} %s: ev {" % rkey)
+        # gamma: the argument of x comes from a VARIABLE - given a value that coercion changes (a list position wraps it is not
+        # available here: an Int given as 7), or not given at all so that the declared default of the variable counts.  Every event
+        # is executed with the coerced variables of the subscription.
+        var_mode = (variant % 7) if setup in ("ok-sync", "ok-async") and " x " in text + " " and "x }" in text else 0
+        sub_kw = {}
+        x_expected = None
+        if var_mode in (5, 6):
+            text = text.replace("subscription {", "subscription ($n: Int = 7) {", 1).replace(" x }", " x(arg: $n) }")
+            if var_mode == 6:
+                sub_kw["variables"] = {"n": 9}
+            x_expected = 9 if var_mode == 6 else 7
+        if setup == "no-sub-resolver" and variant % 2 == 1:
+            # gamma: the root value happens to hold a stream under the field's name; a field without subscription resolver is refused all the same
+            sub_kw["initial_value"] = {"nores": src}
         doc = parse(text)
         stream = None
         tasks = {}
@@ -158,7 +172,7 @@ def run(beh, variant=0):
             act, k, f = step["a"], step["k"], step["f"]
             if act in ("subscribed", "refused"):
                 try:
-                    aw = subscribe(schema, doc, runtime=rt)
+                    aw = subscribe(schema, doc, runtime=rt, **sub_kw)
                     if asyncio.iscoroutine(aw) or isinstance(aw, asyncio.Future):
                         t = loop.create_task(aw) if asyncio.iscoroutine(aw) else aw
                         settle()
@@ -229,10 +243,10 @@ def run(beh, variant=0):
                     return div + [("sub/pull-raises/%s" % type(t.exception()).__name__, {"event": k, "error": repr(t.exception())})]
                 res = t.result()
                 d = exp["data"]
-                xdata = {rkey: {"a": (10 + k) if d["a"] == "val" else None, "b": (20 + k) if d["b"] == "val" else None, "x": d["x"]}}
+                xdata = {rkey: {"a": (10 + k) if d["a"] == "val" else None, "b": (20 + k) if d["b"] == "val" else None, "x": d["x"] if x_expected is None else x_expected}}
                 got = _plain(res.data)
                 if got != xdata:
-                    what = "x" if ((got or {}).get(rkey) or {}).get("x") != d["x"] else "ab"
+                    what = ("x" if x_expected is None else "x-from-variable") if ((got or {}).get(rkey) or {}).get("x") != xdata[rkey]["x"] else "ab"
                     div.append(("sub/data/%s" % what, {"event": k, "expected": xdata, "got": got}))
                 xerr = sorted((rkey, ff) for ff in exp["errs"])
                 gerr = sorted(tuple(e.path) if getattr(e, "path", None) else ("?",) for e in (res.errors or []))
